@@ -232,11 +232,36 @@ pub fn gen_history(rng: &mut Rng, n_links: usize, hbfs_per_link: u64, p_fault_pe
             }
             i += 1;
         }
+        // 1 link in 6 (never the first one, whose first RDH may open the stream and must pass the initial
+        // RDH0 check): sanity-only faults on the link's FIRST RDH - one, or two at once (e.g. another version
+        // AND a reserved bit): what the link "saw first" is that RDH, faulty or not
+        if !per_link.is_empty() && p_fault_permille > 0 && rng.chance(1, 6) {
+            let n_mut = if rng.chance(1, 2) { 2 } else { 1 };
+            for k in 0..n_mut {
+                let r = &mut seq[0];
+                match if k == 0 { rng.below(2) } else { 1 + rng.below(6) } {
+                    0 => r.version = if r.version == 6 { 7 } else { 6 },
+                    1 => r.priority = 1,
+                    2 => r.rdh0_reserved = 1 + rng.below(0xFFFF) as u16,
+                    3 => r.fee_id |= 0x8000,
+                    4 => r.system_id = 0x21,
+                    5 => r.header_size = 0x41,
+                    _ => r.fee_id = (r.fee_id & !0x3F) | 48,
+                }
+            }
+            faults.push("first_rdh_of_link");
+        }
         per_link.push(seq);
     }
     let lens: Vec<usize> = per_link.iter().map(|s| s.len()).collect();
     let merge = *rng.pick(&[Merge::Contiguous, Merge::RoundRobin, Merge::Random]);
-    let order = merge_order(&lens, merge, rng);
+    let mut order = merge_order(&lens, merge, rng);
+    // the stream opens with the first RDH of link 0 (the one that is never mutated): moving a link's first
+    // packet to the front keeps every link's own order
+    if let Some(k) = order.iter().position(|&(l, p)| l == 0 && p == 0) {
+        let first = order.remove(k);
+        order.insert(0, first);
+    }
     let mut wire: Vec<Rdh> = order.into_iter().map(|(l, p)| per_link[l][p].clone()).collect();
     for r in wire.iter_mut() {
         r.memory_size = 64;
